@@ -39,19 +39,23 @@ var c10ConnVals = []string{"", "close", "Close", "CLOSE", "keep-alive", "Keep-Al
 // TimeoutError, TimeoutErrorWithCode, TimeoutErrorWithResponse (plain / carrying Connection: close), and a handler wrapped
 // in TimeoutHandler whose inner handler never finishes before the (1 ns) timeout.
 var c10HandVals = []string{"", "<SetConnectionClose>", "close", "Close", "keep-alive", "keep-alive, close",
-	"<TimeoutError>", "<TimeoutErrorWithCode>", "<TimeoutErrorWithResponse>", "<TimeoutErrorWithResponse+close>", "<TimeoutHandler>"}
+	"<TimeoutError>", "<TimeoutErrorWithCode>", "<TimeoutErrorWithResponse>", "<TimeoutErrorWithResponse+close>", "<TimeoutHandler>",
+	"<read-whole-body>", "<read-100-bytes-of-body>"}
 
 const c10FirstTimeoutHandler = 6
+const c10FirstBodyHandler = 11 // 11: reads the request body to its end, 12: reads 100 bytes of it; every other program ignores the body
 
 type c10Req struct {
-	V int `json:"v"` // 0 = HTTP/1.1, 1 = HTTP/1.0
-	C int `json:"c"` // index into c10ConnVals (0 = no Connection header)
-	H int `json:"h"` // index into c10HandVals
+	V int `json:"v"`           // 0 = HTTP/1.1, 1 = HTTP/1.0
+	C int `json:"c"`           // index into c10ConnVals (0 = no Connection header)
+	H int `json:"h"`           // index into c10HandVals
+	B int `json:"b,omitempty"` // request body: 0 none, 1 9000 bytes with Content-Length (> the 8 KiB a streaming server pre-reads), 2 9000 bytes chunked
 }
 
 type c10Cfg struct {
 	DisableKeepalive bool `json:"dk"`
 	MaxReq           int  `json:"maxreq"`
+	Stream           bool `json:"stream_request_body,omitempty"`
 }
 
 type c10Case struct {
@@ -93,13 +97,40 @@ func c10TokenShape(v, tok string) string {
 	}
 }
 
-func c10ReqText(i int, q c10Req) string {
+const c10BodyLen = 9000
+
+func c10ReqText(i int, q c10Req) string { return c10ReqTextB(i, q, true) }
+
+func c10ReqTextB(i int, q c10Req, withBody bool) string {
 	var b strings.Builder
-	fmt.Fprintf(&b, "GET /%d HTTP/1.%d\r\nHost: h\r\nX-H: %d\r\n", i, 1-q.V, q.H)
+	m := "GET"
+	if q.B != 0 {
+		m = "POST"
+	}
+	fmt.Fprintf(&b, "%s /%d HTTP/1.%d\r\nHost: h\r\nX-H: %d\r\n", m, i, 1-q.V, q.H)
 	if q.C != 0 {
 		fmt.Fprintf(&b, "Connection: %s\r\n", c10ConnVals[q.C])
 	}
+	switch q.B {
+	case 1:
+		fmt.Fprintf(&b, "Content-Length: %d\r\n", c10BodyLen)
+	case 2:
+		b.WriteString("Transfer-Encoding: chunked\r\n")
+	}
 	b.WriteString("\r\n")
+	if !withBody && q.B != 0 {
+		fmt.Fprintf(&b, "<%d body bytes>", c10BodyLen)
+		return b.String()
+	}
+	switch q.B {
+	case 1:
+		b.WriteString(strings.Repeat("b", c10BodyLen))
+	case 2:
+		for k := 0; k < 3; k++ {
+			fmt.Fprintf(&b, "%x\r\n%s\r\n", c10BodyLen/3, strings.Repeat("b", c10BodyLen/3))
+		}
+		b.WriteString("0\r\n\r\n")
+	}
 	return b.String()
 }
 
@@ -132,13 +163,24 @@ func c10Handler(ctx *RequestCtx) {
 		TimeoutHandler(func(*RequestCtx) { <-rel }, 1, "t")(ctx)
 		close(rel)
 		return
+	case h == 11 || h == 12:
+		if bs := ctx.RequestBodyStream(); bs != nil {
+			if h == 11 {
+				io.Copy(io.Discard, bs)
+			} else {
+				var buf [100]byte
+				io.ReadFull(bs, buf[:])
+			}
+		} else {
+			_ = ctx.PostBody()
+		}
 	}
 	ctx.SetBodyString("ok")
 }
 
 func c10Server(cfg c10Cfg) *Server {
 	return &Server{Handler: c10Handler, DisableKeepalive: cfg.DisableKeepalive, MaxRequestsPerConn: cfg.MaxReq,
-		Logger: c10NopLogger{}, Name: "v"}
+		StreamRequestBody: cfg.Stream, Logger: c10NopLogger{}, Name: "v"}
 }
 
 // c10Required returns the first reason (fixed order) for which the statement requires "Connection: close" + close
@@ -230,7 +272,7 @@ func c10ReadAfter(c *vnet.Conn, off int) bool {
 func c10Text(cs c10Case) string {
 	var b strings.Builder
 	for i, q := range cs.Reqs {
-		b.WriteString(strconv.Quote(c10ReqText(i+1, q)))
+		b.WriteString(strconv.Quote(c10ReqTextB(i+1, q, false)))
 		fmt.Fprintf(&b, "[handler:%s] ", c10HandVals[q.H])
 	}
 	return b.String()
@@ -298,7 +340,13 @@ func c10RunServer(r *vrt.R, s *Server, cs c10Case, judgeAll bool) (kept bool) {
 		if tag == "" {
 			tag = "nothing-requires-close"
 		}
-		if q.H >= c10FirstTimeoutHandler {
+		if cs.Cfg.Stream && q.B != 0 && q.H != 11 {
+			tag += ":streamed-body-left-unread"
+			if k == n {
+				r.Add("responses_judged_after_unread_streamed_body", 1)
+			}
+		}
+		if q.H >= c10FirstTimeoutHandler && q.H < c10FirstBodyHandler {
 			tag += ":timeout-response"
 			if k == n {
 				r.Add("timeout_responses_judged", 1)
@@ -320,7 +368,7 @@ func c10RunServer(r *vrt.R, s *Server, cs c10Case, judgeAll bool) (kept bool) {
 		}
 		if q.V == 1 && kept && !rs.closeTok && !rs.kaTok {
 			sg := "http10-connection-kept-open-without-keep-alive-header"
-			if q.H >= c10FirstTimeoutHandler {
+			if q.H >= c10FirstTimeoutHandler && q.H < c10FirstBodyHandler {
 				sg += ":timeout-response"
 			}
 			viol(sg,
@@ -361,33 +409,68 @@ func c10Hash(cs c10Case) uint64 {
 		mix(7)
 	}
 	mix(cs.Cfg.MaxReq)
+	if cs.Cfg.Stream {
+		mix(31)
+	}
 	mix(cs.Mode)
 	for _, q := range cs.Reqs {
 		mix(q.V)
 		mix(q.C)
 		mix(q.H)
+		mix(q.B + 40)
 	}
 	return h
 }
 
-func c10Explore(r *vrt.R, s *Server, cs c10Case, maxLen int, cnt *int) {
+func c10Explore(r *vrt.R, s *Server, cs c10Case, maxLen int, alphabet []c10Req, cnt *int) {
 	if r.Expired() {
 		r.NotExhaustive("time budget reached in server history tree")
 		return
 	}
+	for _, q := range alphabet {
+		cs2 := cs
+		cs2.Reqs = append(append(make([]c10Req, 0, maxLen), cs.Reqs...), q)
+		kept := c10RunServer(r, s, cs2, false)
+		*cnt++
+		if kept && len(cs2.Reqs) < maxLen {
+			c10Explore(r, s, cs2, maxLen, alphabet, cnt)
+		}
+	}
+}
+
+// c10AlphabetHeaders: the full product version x Connection value x handler program, requests without a body.
+func c10AlphabetHeaders() []c10Req {
+	var a []c10Req
 	for v := 0; v < 2; v++ {
 		for c := range c10ConnVals {
-			for h := range c10HandVals {
-				cs2 := cs
-				cs2.Reqs = append(append(make([]c10Req, 0, maxLen), cs.Reqs...), c10Req{v, c, h})
-				kept := c10RunServer(r, s, cs2, false)
-				*cnt++
-				if kept && len(cs2.Reqs) < maxLen {
-					c10Explore(r, s, cs2, maxLen, cnt)
+			for h := 0; h < c10FirstBodyHandler; h++ {
+				a = append(a, c10Req{V: v, C: c, H: h})
+			}
+		}
+	}
+	return a
+}
+
+// c10AlphabetBodies: requests with a body (Content-Length, chunked) x what the handler does with it (ignore, close, read
+// all, read a part), mixed with body-less requests; Connection values in their canonical spelling only.
+func c10AlphabetBodies() []c10Req {
+	var a []c10Req
+	for v := 0; v < 2; v++ {
+		for _, c := range []int{0, 1, 4} { // absent, close, keep-alive
+			for _, h := range []int{0, 1, 6} { // nothing, SetConnectionClose, TimeoutError
+				a = append(a, c10Req{V: v, C: c, H: h})
+			}
+			for b := 1; b <= 2; b++ {
+				if b == 2 && v == 1 {
+					continue // chunked needs HTTP/1.1
+				}
+				for _, h := range []int{0, 1, 11, 12} {
+					a = append(a, c10Req{V: v, C: c, H: h, B: b})
 				}
 			}
 		}
 	}
+	return a
 }
 
 // ---------------------------------------------------------------------------------------------------- client side
@@ -655,7 +738,7 @@ func TestVerif_C10(t *testing.T) {
 	clientLen := vrt.Pick(r, 3, 4)
 	r.Rule(fmt.Sprintf("server: every request history of <=%d requests on one connection over version{1.1,1.0} x Connection%q x handler%q "+
 		"(extended only while the server kept the connection open), x DisableKeepalive{off,on} x MaxRequestsPerConn{0,1,2} x delivery{one chunk per request, pipelined}, "+
-		"through Server.ServeConn on a scripted connection; oracle per response: close token in the Connection header sent (case-insensitive list member) <=> no further Read, "+
+		"through Server.ServeConn on a scripted connection; plus the body tree: the same history tree over requests {no body, 9000 bytes Content-Length, 9000 bytes chunked} x Connection{absent, close, keep-alive} x handler{nothing, SetConnectionClose, TimeoutError; with a body: nothing, SetConnectionClose, reads whole body, reads 100 bytes} x StreamRequestBody{off,on} x the same configurations; oracle per response: close token in the Connection header sent (case-insensitive list member) <=> no further Read, "+
 		"every close the statement requires is announced and done, HTTP/1.0 persistent responses carry keep-alive (handlers <Timeout...> make the server answer from a swapped RequestCtx). "+
 		"client: every sequence of %d scripted responses over version x Connection values, x response handling{buffered, StreamResponseBody read to EOF then closed, StreamResponseBody closed at once} x body{2 bytes with Content-Length, 40 bytes > MaxResponseBodySize (streamed from the connection), chunked}, HostClient.Do sequentially; oracle: no request is written on a connection after a response with a close token. "+
 		"shutdown: real Serve/Shutdown, Shutdown started in the handler of request 1..2 x CloseOnShutdown. "+
@@ -664,27 +747,38 @@ func TestVerif_C10(t *testing.T) {
 		"'kept open' = the server issues a Read after the response (or answers a later pipelined request); 'closed' = ServeConn returns without such a Read")
 	r.Set("max_history", maxLen)
 
-	cfgs := []c10Cfg{{false, 0}, {false, 1}, {false, 2}, {true, 0}, {true, 1}, {true, 2}}
+	cfgs := []c10Cfg{{false, 0, false}, {false, 1, false}, {false, 2, false}, {true, 0, false}, {true, 1, false}, {true, 2, false}}
 	type shard struct {
-		cfg  c10Cfg
-		mode int
-		q    c10Req
+		cfg   c10Cfg
+		mode  int
+		q     c10Req
+		alpha []c10Req
 	}
+	alphaHeaders, alphaBodies := c10AlphabetHeaders(), c10AlphabetBodies()
+	r.Set("alphabet_header_tree", len(alphaHeaders))
+	r.Set("alphabet_body_tree", len(alphaBodies))
 	var shards []shard
+	servers := map[c10Cfg]*Server{}
 	for _, cfg := range cfgs {
 		for mode := 0; mode < 2; mode++ {
-			for v := 0; v < 2; v++ {
-				for c := range c10ConnVals {
-					for h := range c10HandVals {
-						shards = append(shards, shard{cfg, mode, c10Req{v, c, h}})
-					}
+			for _, q := range alphaHeaders {
+				shards = append(shards, shard{cfg, mode, q, alphaHeaders})
+			}
+		}
+		servers[cfg] = c10Server(cfg)
+	}
+	// the body tree: every configuration again, with StreamRequestBody off and on
+	for _, cfg := range cfgs {
+		for _, stream := range []bool{false, true} {
+			cfg2 := cfg
+			cfg2.Stream = stream
+			servers[cfg2] = c10Server(cfg2)
+			for mode := 0; mode < 2; mode++ {
+				for _, q := range alphaBodies {
+					shards = append(shards, shard{cfg2, mode, q, alphaBodies})
 				}
 			}
 		}
-	}
-	servers := map[c10Cfg]*Server{}
-	for _, cfg := range cfgs {
-		servers[cfg] = c10Server(cfg)
 	}
 	// sequential pre-pass over the one-request histories, so that the artefact kept per violation class is a shortest one
 	for _, sh := range shards {
@@ -700,7 +794,7 @@ func TestVerif_C10(t *testing.T) {
 		cnt := 1
 		kept := c10RunServer(r, s, cs, false)
 		if kept && maxLen > 1 {
-			c10Explore(r, s, cs, maxLen, &cnt)
+			c10Explore(r, s, cs, maxLen, sh.alpha, &cnt)
 		}
 		r.Eval(cnt)
 		r.Add("server_histories", int64(cnt))
